@@ -65,5 +65,6 @@ fn main() {
         "C16" => c16,
         "C17" => c17,
         "C18" => c18,
+        "C20" => c20,
     );
 }
